@@ -16,7 +16,7 @@ Import ListNotations.
 Require Import Verif.Lib.Wire Verif.Lib.Text Verif.Lib.PathNorm Verif.Lib.Utf8 Verif.Lib.Percent Verif.Lib.C07Types
                Verif.Gen.Facts_C02 Verif.Gen.Facts_C07 Verif.Model.C02 Verif.Model.C07
                Verif.Proofs.C02_memo Verif.Proofs.C07_rt Verif.Proofs.C07 Verif.Proofs.C07_hist Verif.Proofs.C07_c17
-               Verif.Gen.Code_C07 Verif.Proofs.C07_gen.
+               Verif.Gen.Code_C07 Verif.Proofs.C07_gen Verif.Proofs.C07_elt.
 Require Verif.Proofs.C02_gen.
 Require Verif.Model.C17.
 
@@ -368,3 +368,65 @@ Theorem C07_generated_traverser_call_is_model : forall root q,
   Verif.Proofs.C02_gen.gen_traverser_call root q = traverser_call root q.
 Proof. exact Verif.Proofs.C02_gen.gen_traverser_call_is_model. Qed.
 Print Assumptions C07_generated_traverser_call_is_model.
+
+(* ------------------------------------------------------------------ elements of any type (Proofs/C07_elt.v)
+     seg = SStr text | SBytes bytes | SObj key printed    a str, a bytes object, any other object (what str() prints of it,
+                                                          and its equality class as a dictionary / lru_cache key)
+     seg_texts els = Some ts        every bytes element is UTF-8; ts = the texts the elements stand for
+     elts_texts els = Some ts       moreover all of them are Unicode scalar values
+     resource_path_e / resource_path_tuple_e / resource_url_e / request_resource_path_e   the functions for such elements
+     resource_path_second raw ..    resource_path(r, *els2) in a process that has answered resource_path(r, *els1); raw =
+                                    _join_path_tuple is lru_cached on the raw tuple (regenerated fact c07_join_raw_key) *)
+Theorem C07_typed_elements_are_their_texts : forall m root r els ts vroot sn host,
+  seg_texts els = Some ts ->
+  resource_path_e root r els = resource_path root r ts /\
+  resource_url_e m root r els vroot sn host = resource_url m root r ts vroot sn host /\
+  request_resource_path_e m root r els vroot sn = request_resource_path m root r ts vroot sn.
+Proof. exact typed_elements_are_their_texts. Qed.
+Print Assumptions C07_typed_elements_are_their_texts.
+
+Theorem C07_resource_path_with_elements : forall root r names els ts,
+  good_resource root r = Some names -> elts_texts els = Some ts ->
+  resource_path_tuple_e root r els = Val (map SStr ([] :: names) ++ els) /\
+  resource_path_e root r els = Val (slash :: join [slash] (map q (names ++ ts))).
+Proof. exact resource_path_with_elements. Qed.
+Print Assumptions C07_resource_path_with_elements.
+
+Theorem C07_resource_url_with_elements : forall root r names els ts vroot vt sn d host,
+  good_resource root r = Some names -> header_segments vroot = Some vt ->
+  elts_texts els = Some ts -> decode_path_info sn = Ok d ->
+  resource_url_e UrlTupleCompare root r els vroot sn (Some host)
+    = Val ((host ++ Percent.quote c07_script_safe (Utf8.encode d)) ++ spec_virtual_path root r names vt
+           ++ join [slash] (map q ts)) /\
+  request_resource_path_e UrlTupleCompare root r els vroot sn
+    = Val (Percent.quote c07_script_safe (Utf8.encode d) ++ spec_virtual_path root r names vt
+           ++ join [slash] (map q ts)).
+Proof. exact resource_url_e_shape. Qed.
+Print Assumptions C07_resource_url_with_elements.
+
+Theorem C07_undecodable_bytes_element : forall root r names pre ts b post,
+  good_resource root r = Some names -> elts_texts pre = Some ts -> Utf8.decode b = None ->
+  resource_path_e root r (pre ++ SBytes b :: post) = Err (EExn UnicodeDecodeError).
+Proof. exact resource_path_e_bad_bytes. Qed.
+Print Assumptions C07_undecodable_bytes_element.
+
+(* the memo of _join_path_tuple: transparent when it is not keyed on the raw tuple; keyed on the raw tuple it is still
+   transparent for str / bytes elements and for element lists that print alike -- and REFUTED otherwise (1, then True) *)
+Theorem C07_join_memo_transparent : forall raw root r e1 e2,
+  raw = false \/ forallb seg_plain e2 = true \/ (exists ts, seg_texts e1 = Some ts /\ seg_texts e2 = Some ts) ->
+  resource_path_second raw root r e1 e2 = resource_path_e root r e2.
+Proof. exact join_memo_transparent. Qed.
+Print Assumptions C07_join_memo_transparent.
+
+Theorem C07_join_memo_raw_key_refuted :
+  resource_path_second true (Node None) [] [SObj 0 t_1] [SObj 0 t_True] = Val (slash :: t_1) /\
+  resource_path_e (Node None) [] [SObj 0 t_True] = Val (slash :: t_True).
+Proof. exact resource_path_second_refuted. Qed.
+Print Assumptions C07_join_memo_raw_key_refuted.
+
+Theorem C07_spec_ext_sound : forall raw c e1 e2 i sv,
+  nth_error (spec_ext c e1 e2) i = Some sv -> sv <> none_val ->
+  (i = 4 -> raw = false \/ forallb seg_plain e2 = true \/ seg_texts e1 = seg_texts e2) ->
+  nth_error (model_ext UrlTupleCompare raw c e1 e2) i = Some sv.
+Proof. exact spec_ext_sound. Qed.
+Print Assumptions C07_spec_ext_sound.
